@@ -280,7 +280,7 @@ fn run_prog<C: Counter>(
         // the adapters hold Cells; nothing of them is observed after a panic
         let cw = std::panic::AssertUnwindSafe(c);
         let resetw = std::panic::AssertUnwindSafe(reset);
-        let mut run = || {
+        let run = || {
             let r = exhaustive(sim, async || {
                 let c: &C = &cw;
                 let reset: &dyn Fn() = *std::ops::Deref::deref(&resetw);
@@ -347,45 +347,49 @@ pub fn run(rep: &mut Report, thorough: bool, replay: Option<Value>) {
 
     let mut tally = Tally { per_prog: Default::default() };
 
-    // ---- flow A: all single-process programs ------------------------------------------------
+    // ---- single-process programs ------------------------------------------------------------
+    // The atomic (correct) programs are silent while idle and share one simulation; every
+    // non-atomic variant snapshots a top-level singleton (its hook can run an idle tick, which would
+    // multiply the schedules of its neighbours), so each gets a simulation of its own.
+    macro_rules! single_client {
+        ($flow:ident, $name:expr, $tag:ty, $f:path) => {{
+            let p = $flow.process::<$tag>();
+            let (inc, incs) = p.sim_input();
+            let (get, gets) = p.sim_input();
+            let (acks, resps) = $f(incs, gets);
+            SingleClient { name: $name, inc, ack: acks.sim_output(), get, resp: resps.sim_output(), reads_sent: Cell::new(0), reads_seen: Cell::new(0), tags: Default::default() }
+        }};
+    }
+    macro_rules! client_keyed {
+        ($flow:ident, $name:expr, $tag:ty, $f:path) => {{
+            let p = $flow.process::<$tag>();
+            let (inc, incs) = p.sim_input();
+            let (get, gets) = p.sim_input();
+            let (acks, resps) = $f(incs.into_keyed(), gets.into_keyed());
+            ClientKeyed { name: $name, inc, ack: ordered(acks.entries()), get, resp: ordered(resps.entries()) }
+        }};
+    }
+    macro_rules! prog {
+        ($sim:expr, $c:expr, $buggy:expr, $reset:expr) => {{
+            let mut st = Stats::new();
+            run_prog(&mut st, &mut tally, &$sim, &$c, $buggy, k_max, thorough, &replay, $reset);
+            let t = tally.per_prog.get($c.name()).copied().unwrap_or((0, 0));
+            println!("  [{}] executions={} stale_read_executions={} violations={}", $c.name(), t.0, t.1, st.violations_total);
+            rep.section($c.name(), st);
+        }};
+    }
+    let none = || {};
     {
         let mut flow = FlowBuilder::new();
-        macro_rules! single_client {
-            ($name:expr, $tag:ty, $f:path) => {{
-                let p = flow.process::<$tag>();
-                let (inc, incs) = p.sim_input();
-                let (get, gets) = p.sim_input();
-                let (acks, resps) = $f(incs, gets);
-                SingleClient { name: $name, inc, ack: acks.sim_output(), get, resp: resps.sim_output(), reads_sent: Cell::new(0), reads_seen: Cell::new(0), tags: Default::default() }
-            }};
-        }
-        macro_rules! client_keyed {
-            ($name:expr, $tag:ty, $f:path) => {{
-                let p = flow.process::<$tag>();
-                let (inc, incs) = p.sim_input();
-                let (get, gets) = p.sim_input();
-                let (acks, resps) = $f(incs.into_keyed(), gets.into_keyed());
-                ClientKeyed { name: $name, inc, ack: ordered(acks.entries()), get, resp: ordered(resps.entries()) }
-            }};
-        }
-        let sc = single_client!("single_client_counter", tut::single_client_counter::CounterServer, tut::single_client_counter::single_client_counter_service);
-        let sc_bug = single_client!("single_client_counter_buggy", tut::single_client_counter_buggy::CounterServer, tut::single_client_counter_buggy::single_client_counter_service_buggy);
-        let s1 = client_keyed!("single_counter", tut::single_counter::CounterServer, tut::single_counter::single_counter_service);
-        let s1_bug = client_keyed!("single_counter_buggy", tut::single_counter_buggy::CounterServer, tut::single_counter_buggy::single_counter_service_buggy);
-        let cc = client_keyed!("concurrent_clients", tut::concurrent_clients::CounterServer, tut::concurrent_clients::concurrent_counter_service);
+        let sc = single_client!(flow, "single_client_counter", tut::single_client_counter::CounterServer, tut::single_client_counter::single_client_counter_service);
+        let s1 = client_keyed!(flow, "single_counter", tut::single_counter::CounterServer, tut::single_counter::single_counter_service);
+        let cc = client_keyed!(flow, "concurrent_clients", tut::concurrent_clients::CounterServer, tut::concurrent_clients::concurrent_counter_service);
         let kc = {
             let p = flow.process::<tut::keyed_counter::CounterServer>();
             let (inc, incs) = p.sim_input();
             let (get, gets) = p.sim_input();
             let (acks, resps) = tut::keyed_counter::keyed_counter_service(incs.into_keyed(), gets.into_keyed());
             KeyedCounter { name: "keyed_counter", inc, ack: ordered(acks.entries()), get, resp: ordered(resps.entries()) }
-        };
-        let kc_bug = {
-            let p = flow.process::<tut::keyed_counter_non_atomic::CounterServer>();
-            let (inc, incs) = p.sim_input::<(u32, String), TotalOrder, ExactlyOnce>();
-            let (get, gets) = p.sim_input::<(u32, String), TotalOrder, ExactlyOnce>();
-            let (acks, resps) = tut::keyed_counter_non_atomic::keyed_counter_service_buggy(incs.into_keyed(), gets.into_keyed());
-            KeyedCounter { name: "keyed_counter_non_atomic", inc, ack: ordered(acks.entries()), get, resp: ordered(resps.entries()) }
         };
         let own = {
             let p = flow.process::<atomics::Server>();
@@ -394,6 +398,39 @@ pub fn run(rep: &mut Report, thorough: bool, replay: Option<Value>) {
             let (acks, resps) = atomics::write_ack_atomic_read(w, r);
             Minimal { name: "own_write_ack_atomic_read", inc, ack: acks.sim_output(), get, resp: resps.sim_output() }
         };
+        let sim = flow.sim().compiled();
+        prog!(sim, sc, false, &|| sc.reset());
+        prog!(sim, s1, false, &none);
+        prog!(sim, cc, false, &none);
+        prog!(sim, kc, false, &none);
+        prog!(sim, own, false, &none);
+    }
+    {
+        let mut flow = FlowBuilder::new();
+        let sc_bug = single_client!(flow, "single_client_counter_buggy", tut::single_client_counter_buggy::CounterServer, tut::single_client_counter_buggy::single_client_counter_service_buggy);
+        let sim = flow.sim().compiled();
+        prog!(sim, sc_bug, true, &|| sc_bug.reset());
+    }
+    {
+        let mut flow = FlowBuilder::new();
+        let s1_bug = client_keyed!(flow, "single_counter_buggy", tut::single_counter_buggy::CounterServer, tut::single_counter_buggy::single_counter_service_buggy);
+        let sim = flow.sim().compiled();
+        prog!(sim, s1_bug, true, &none);
+    }
+    {
+        let mut flow = FlowBuilder::new();
+        let kc_bug = {
+            let p = flow.process::<tut::keyed_counter_non_atomic::CounterServer>();
+            let (inc, incs) = p.sim_input::<(u32, String), TotalOrder, ExactlyOnce>();
+            let (get, gets) = p.sim_input::<(u32, String), TotalOrder, ExactlyOnce>();
+            let (acks, resps) = tut::keyed_counter_non_atomic::keyed_counter_service_buggy(incs.into_keyed(), gets.into_keyed());
+            KeyedCounter { name: "keyed_counter_non_atomic", inc, ack: ordered(acks.entries()), get, resp: ordered(resps.entries()) }
+        };
+        let sim = flow.sim().compiled();
+        prog!(sim, kc_bug, true, &none);
+    }
+    {
+        let mut flow = FlowBuilder::new();
         let own_bug = {
             let p = flow.process::<atomics::Server>();
             let (inc, w) = p.sim_input();
@@ -402,26 +439,7 @@ pub fn run(rep: &mut Report, thorough: bool, replay: Option<Value>) {
             Minimal { name: "own_write_ack_plain_read", inc, ack: acks.sim_output(), get, resp: resps.sim_output() }
         };
         let sim = flow.sim().compiled();
-        let none = || {};
-
-        macro_rules! prog {
-            ($c:expr, $buggy:expr, $reset:expr) => {{
-                let mut st = Stats::new();
-                run_prog(&mut st, &mut tally, &sim, &$c, $buggy, k_max, thorough, &replay, $reset);
-                let t = tally.per_prog.get($c.name()).copied().unwrap_or((0, 0));
-                println!("  [{}] executions={} stale_read_executions={} violations={}", $c.name(), t.0, t.1, st.violations_total);
-                rep.section($c.name(), st);
-            }};
-        }
-        prog!(sc, false, &|| sc.reset());
-        prog!(sc_bug, true, &|| sc_bug.reset());
-        prog!(s1, false, &none);
-        prog!(s1_bug, true, &none);
-        prog!(cc, false, &none);
-        prog!(kc, false, &none);
-        prog!(kc_bug, true, &none);
-        prog!(own, false, &none);
-        prog!(own_bug, true, &none);
+        prog!(sim, own_bug, true, &none);
     }
 
     // ---- flow B: partitioned_counter (leader process + 5 shards) ---------------------------
